@@ -4,6 +4,13 @@ SIM_NOTE = ("trusted base: the behavioural nRF24L01+ simulator (vlib/sim, self-t
             "driver; chip assumptions (a)-(e) of DESIGN.md 2.6")
 
 CHECKS = [
+    {"property_id": "C09", "level": "exploration",
+     "text": "Hypothesis-generated interleavings of 3..12 with-blocks of 2..3 objects (RF24, FakeBLE, RF24Network, RF24Mesh in any "
+             "mix) sharing one simulated radio, each block running drawn configuration calls; for every re-entry the chip's "
+             "complete configuration register file is compared with the snapshot taken at the end of that object's previous "
+             "block, and PWR_UP/CE are checked after every __exit__; sampled histories only",
+     "design_ref": "4/C09", "note": SIM_NOTE + "; the oracle is a relation between two chip snapshots, no model of the individual setters is needed",
+     "technique": "property-based testing: Hypothesis-generated multi-object with-block interleavings, metamorphic snapshot-equality oracle"},
     {"property_id": "C10", "level": "exploration",
      "text": "Hypothesis op lists mixing traffic (peer sends to any pipe, write/CE/send to listening, absent or ACK-payload peers, "
              "load_ack, role toggles) with every accessor in all its argument forms, in dynamic / static per-pipe / mixed payload "
